@@ -806,7 +806,12 @@ def lf8(F, R):
         if cl[0] == "agg" and cl[1] == "Closure":
             c = F.closure(cl[2])
             rets = [c.term_of_rvalue(d[3], d[1]) if d[0] == "assign" else c.call_term(d[2], d[1]) for d in c.defs().get(0, [])]
-            okt = len(rets) == 1 and rets[0][0] == "bin" and rets[0][1] == "Eq" and rets[0][3][:2] == ("c", 0) and strip_refs(rets[0][2])[0] in ("place", "arg") and not [1 for bb in c.live_blocks() if c.term(bb)["k"] == "SwitchInt"]
+            def _unit_is_zero(r_):
+                if not (r_[0] == "bin" and r_[1] == "Eq"):
+                    return False
+                a_, b_ = strip_refs(r_[2]), strip_refs(r_[3])
+                return (b_[:2] == ("c", 0) and a_[0] in ("place", "arg")) or (a_[:2] == ("c", 0) and b_[0] in ("place", "arg"))
+            okt = len(rets) == 1 and _unit_is_zero(rets[0]) and not [1 for bb in c.live_blocks() if c.term(bb)["k"] == "SwitchInt"]
     R.require(okt, fn, "terminator", "the fragment must be cut at the first unit equal to 0x0000 and at nothing else", fn.loc(pos[0][0]) if pos else fn.loc(0))
     if len(pos) == 1:
         # ... searched in all 13 units (a 12-character tail has its terminator in the last one)
@@ -1772,6 +1777,7 @@ def tb1(F, R):
     itv = strip_refs(fn.term_of_operand(nt["args"][0], nb))
     defs = var_def_terms(fn, itv[1]) if itv[0] == "var" else [itv]
     shape = False
+    bare = False        # the scan runs over the chunks themselves (no index): the mark then goes through the chunk
     for d in defs:
         d = strip_refs(d)
         while d[0] == "call" and d[1] and d[1].endswith("into_iter") and d[2]:
@@ -1780,6 +1786,8 @@ def tb1(F, R):
             inner = strip_refs(d[2][0])
             if inner[0] == "call" and inner[1] and inner[1].endswith(("chunks_exact_mut", "chunks_exact")) and len(inner[2]) == 2 and inner[2][1][:2] == ("c", 32):
                 shape = True
+        elif d[0] == "call" and d[1] and d[1].endswith(("chunks_exact_mut", "chunks_exact")) and len(d[2]) == 2 and d[2][1][:2] == ("c", 32):
+            shape = bare = True
     R.require(shape and len(defs) == 1, fn, "slot-numbering", "the slot index used for the mark must number all 32-byte slots of the block: enumerate() directly over chunks_exact(32) - a filter / skip / rev in between makes the mark land on another entry", fn.loc(nb))
     b, i, s_, v = tomb[0]
     # where: block[i * 32] with i the scan's own index, or item.1[0]
@@ -1794,6 +1802,14 @@ def tb1(F, R):
     if len(cidx) == 1 and cidx[0][1] == 0 and not cidx[0][3]:
         base = strip_refs(fn._local_term(s_["p"]["l"], 0))
         okpos = has_sub(base, lambda q: q == item[1])
+    if bare:
+        # no slot index exists: the only correct mark is byte 0 of the scan's own chunk (`chunk[0] = 0xE5`)
+        base = strip_refs(fn._local_term(s_["p"]["l"], 0))
+        through_chunk = base == item or has_sub(base, lambda q: q == item)
+        if len(idx) == 1:
+            okpos = through_chunk and fn._local_term(idx[0][1], 0)[:2] == ("c", 0)
+        else:
+            okpos = okpos and through_chunk
     R.require(okpos, fn, "position", "the 0xE5 mark must go to byte i*32 of the block for the scan's own slot index i", fn.loc(b, i))
     # for the slot that matched
     from .ev import guarded_through
